@@ -20,7 +20,8 @@ use std::rc::Rc;
 #[derive(Serialize, Deserialize, Clone, Debug)]
 pub struct Import {
     pub target: usize,
-    /// 0 `import {v as v_j}`, 1 `import * as ns_j`, 2 bare `import`, 3 `export {v as r_j} from`, 4 `export * from`
+    /// 0 `import {v as v_j}`, 1 `import * as ns_j`, 2 bare `import`, 3 `export {v as r_j} from`, 4 `export * from`,
+    /// 5 `export * as sub_i_j from`, 6 `import d_j from` (default export)
     pub kind: u8,
 }
 
@@ -88,6 +89,7 @@ pub fn corpus() -> &'static Vec<(String, Vec<ModSpec>, usize, usize, Vec<(Vec<St
 pub fn render(i: usize, m: &ModSpec) -> String {
     let mut s = String::new();
     let mut reads = String::new();
+    let mut late = String::new();
     let mut seen = BTreeSet::new();
     for im in &m.imports {
         let j = im.target;
@@ -105,10 +107,31 @@ pub fn render(i: usize, m: &ModSpec) -> String {
             }
             2 => s.push_str(&format!("import 'm{j}';\n")),
             3 => s.push_str(&format!("export {{v as r_{i}_{j}}} from 'm{j}';\n")),
+            5 => s.push_str(&format!("export * as sub_{i}_{j} from 'm{j}';\n")),
+            6 => {
+                s.push_str(&format!("import d_{j} from 'm{j}';\n"));
+                reads.push_str(&format!("try {{ print('m{i} default m{j}', d_{j}); }} catch (e) {{ print('m{i} default m{j}', e.name); }}\n"));
+                late.push_str(&format!("d_{j}, "));
+            }
             _ => s.push_str(&format!("export * from 'm{j}';\n")),
         }
+        if im.kind == 0 {
+            late.push_str(&format!("v_{j}, "));
+        }
+        if im.kind == 1 {
+            late.push_str(&format!("ns_{j}.v, Object.keys(ns_{j}).join('|'), "));
+        }
     }
-    s.push_str(&format!("print('start m{i}');\nexport let v = 'm{i}:0';\nexport function bump(){{ v = 'm{i}:1'; }}\n"));
+    s.push_str(&format!("print('start m{i}');\nexport let v = 'm{i}:0';\nexport function bump(){{ v = 'm{i}:1'; }}\nexport default 'm{i}:d';\n"));
+    // `shared` is exported by every second module: through two different `export *` paths the
+    // name is ambiguous (left out of namespaces), through a diamond to the same module it is not
+    if i % 2 == 0 {
+        s.push_str(&format!("export let shared = 'm{i}:s';\n"));
+    }
+    if !late.is_empty() {
+        // imported bindings are live: read again from a promise job, after everything has run
+        s.push_str(&format!("Promise.resolve().then(function(){{ try {{ print('m{i} late', {late}'.'); }} catch (e) {{ print('m{i} late', e.name); }} }});\n"));
+    }
     s.push_str(&reads);
     if m.throws == 1 {
         s.push_str(&format!("throw new Error('m{i} throws');\n"));
@@ -178,7 +201,7 @@ pub fn generate(rng: &mut Rng, tier: Tier) -> Value {
                 1..=3 => rng.idx(n),
                 _ => (i + 1 + rng.idx(n)) % n,
             };
-            imports.push(Import { target, kind: *rng.pick(&[0u8, 0, 0, 1, 2, 3, 4]) });
+            imports.push(Import { target, kind: *rng.pick(&[0u8, 0, 0, 1, 1, 2, 3, 4, 4, 5, 6]) });
         }
         mods.push(ModSpec {
             imports,
@@ -748,7 +771,7 @@ pub const PROP: Prop = Prop {
     generate,
     execute,
     shrink,
-    rule: "one run = (1 of 4) one of 1123 committed graphs (same generator, fault-free, half of them forced to contain top-level await) whose per-phase traces and outcomes were fixed at authoring time — the exact oracle for asynchronous graphs, where the synchronous reference model stops —, or (3 of 4) one directed module graph over 1..6 (quick) / 1..8 (thorough) modules (seeded edges biased to cycles, self-imports and shared leaves; named, namespace, bare, re-export and export-star imports; optional top-level await of three kinds; optional throw before/after the awaits; optional dynamic import(); injected fetch or parse errors on 1..2 modules in 1 run of 4, permanent or hitting only the first 1..2 requests), an entry module, a re-evaluation of it and a second entry (with faults: three further attempts, so that a load that failed is retried and, once the transient faults are used up, gets through), executed under 3 (quick) / 5 (thorough) loader schedules (latency 0..5 polls per request, seeded poll order of pending load jobs) on the stub executor and on the real SimpleJobExecutor; non-trivial = a loader delay, poll reorder, loader fault or module throw fired; distinct = distinct (graph shape signature, latencies, delays and reorders fired)",
+    rule: "one run = (1 of 4) one of 1123 committed graphs (same generator, fault-free, half of them forced to contain top-level await) whose per-phase traces and outcomes were fixed at authoring time — the exact oracle for asynchronous graphs, where the synchronous reference model stops —, or (3 of 4) one directed module graph over 1..6 (quick) / 1..8 (thorough) modules (seeded edges biased to cycles, self-imports and shared leaves; named, namespace, default, bare, re-export, namespace re-export and export-star imports, a name that is ambiguous through two star paths, imported bindings read again from a promise job after everything ran; optional top-level await of three kinds; optional throw before/after the awaits; optional dynamic import(); injected fetch or parse errors on 1..2 modules in 1 run of 4, permanent or hitting only the first 1..2 requests), an entry module, a re-evaluation of it and a second entry (with faults: three further attempts, so that a load that failed is retried and, once the transient faults are used up, gets through), executed under 3 (quick) / 5 (thorough) loader schedules (latency 0..5 polls per request, seeded poll order of pending load jobs) on the stub executor and on the real SimpleJobExecutor; non-trivial = a loader delay, poll reorder, loader fault or module throw fired; distinct = distinct (graph shape signature, latencies, delays and reorders fired)",
     real: &["module records: parse, load, link, evaluate incl. async evaluation and cycles", "namespace objects, live bindings", "SimpleJobExecutor in one schedule per run", "Module::parse (called by the stub loader)"],
     stub: &["SimLoader (host side of the ModuleLoader seam: latency, completion order, fetch/parse faults)", "SimExecutor (seeded poll order of pending load jobs)", "reference model of InnerModuleEvaluation for synchronous graphs"],
     assumptions: &[
